@@ -46,7 +46,7 @@ DEEP = "{}:01ab_?x"
 def _classify(code, lit, c):
     import re
     # the open C03 finding seen from here: the literal parser returns None for `{:.}`, so no placeholder and no bound is seen
-    if code == 8 and re.search(r"\{[^{}]*:[^{}]*\.[?xXobeEp]?\s*\}", lit) and not re.search(r"\.(\*|\d|[^\W\d]\w*\$)", lit):
+    if code == 8 and tcall.has_dot_without_precision(lit):
         return "dot-without-precision"
     return "other"
 
